@@ -648,7 +648,9 @@ static void do_strarr_case(vp_ctx_t* c, uint64_t idx)
     for (uint32_t i = 0; i < n + extra && i < MAXSTR + 8; i++) { sp[i] = &so[i]; }
     for (uint32_t i = 0; i < n; i++) { so[i].data_length = lens[i]; so[i].data = (char*)strs[i]; }
     VssDataStringArray_t* arr = (VssDataStringArray_t*)(O.mem + O_STRUCT); VssDataStringArray_t* sarr = (VssDataStringArray_t*)(O.shadow + O_STRUCT);
-    uint8_t* packed = blk_alloc(total);
+    size_t poff = (size_t)(idx % 4);                  /* packed arrays live at any byte offset (e.g. inside a VSS message) */
+    uint8_t* packed_blk = blk_alloc(total + poff);
+    uint8_t* packed = packed_blk + poff;
     memset(packed, 0x3c, total);
     arr->data = packed; arr->data_length = 0x1234;
     memcpy(O.shadow, O.mem, OBJ_SZ);
@@ -663,11 +665,13 @@ static void do_strarr_case(vp_ctx_t* c, uint64_t idx)
         o_s(c, "{\"strings\":"); o_u(c, n); o_s(c, ",\"total\":"); o_u(c, total); o_s(c, ",\"first_diff\":"); o_u(c, o);
         o_s(c, ",\"expected\":\""); o_hex(c, ref + o, total - o > 12 ? 12 : total - o); o_s(c, "\",\"actual\":\""); o_hex(c, packed + o, total - o > 12 ? 12 : total - o); o_s(c, "\"}"); o_end(c);
     }
-    if (!blk_ok(packed, total) && vp_viol(c, "strarr", "serialize", "wrote-beyond-output", 0, 0, 0)) { o_s(c, "{\"strings\":"); o_u(c, n); o_s(c, "}"); o_end(c); }
+    if (!blk_ok(packed_blk, total + poff) && vp_viol(c, "strarr", "serialize", "wrote-beyond-output", 0, 0, 0)) { o_s(c, "{\"strings\":"); o_u(c, n); o_s(c, "}"); o_end(c); }
     check_obj(c, "strarr", "serialize", "objects", n > 255 ? ">255" : "<=255");
 
     /* --- count and unpack the reference-packed array (exact block: over-reads trap under ASan) */
-    uint8_t* src = blk_alloc(total);
+    size_t soff = (size_t)((idx / 4) % 4);
+    uint8_t* src_blk = blk_alloc(total + soff);
+    uint8_t* src = src_blk + soff;
     memcpy(src, ref, total);
     arr->data = src; arr->data_length = (uint16_t)total;
     memcpy(O.shadow, O.mem, OBJ_SZ);
@@ -730,7 +734,7 @@ static void do_strarr_case(vp_ctx_t* c, uint64_t idx)
         o_s(c, ",\"packed_prefix\":\""); o_hex(c, packed, total > 32 ? 32 : total); o_s(c, "\"}"); o_end(c);
     }
     g_nontrivial++;
-    vp_heap_free(src); vp_heap_free(packed); vp_heap_free(ref);
+    vp_heap_free(src_blk); vp_heap_free(packed_blk); vp_heap_free(ref);
     for (uint32_t i = 0; i < n; i++) vp_heap_free(strs[i]);
 }
 
